@@ -1,5 +1,5 @@
 From Coq Require Import ZArith List Bool String Ascii Lia.
-From KV Require Import Base.Sx Base.Str Model.Telstate.
+From KV Require Import Base.Sx Base.Str Gen.Generated Model.Telstate.
 Import ListNotations.
 Open Scope string_scope.
 Open Scope list_scope.
@@ -12,13 +12,17 @@ Proof.
   rewrite IH. rewrite <- app_assoc. reflexivity.
 Qed.
 
-Lemma prefix_order cb streams : view_capture_stream cb streams = spec_prefixes cb streams.
+(* the views may be stacked on any base view (the root telstate, or the L0 view for flag-stream candidates) *)
+Lemma prefix_order_on base cb streams : view_capture_stream_on base cb streams = spec_prefixes_on base cb streams.
 Proof.
-  unfold view_capture_stream, spec_prefixes, view.
+  unfold view_capture_stream_on, spec_prefixes_on, vcs_steps. cbn [fold_left vcs_run fst snd]. unfold view.
   rewrite (fold_cons (fun s => (s ++ sep)%string) (rev streams)).
   rewrite (fold_cons (fun s => (joinp cb s ++ sep)%string) (rev streams)).
-  rewrite !map_rev, !rev_involutive. reflexivity.
+  rewrite !map_rev, !rev_involutive. rewrite <- ?app_assoc. reflexivity.
 Qed.
+
+Lemma prefix_order cb streams : view_capture_stream cb streams = spec_prefixes cb streams.
+Proof. apply prefix_order_on. Qed.
 
 (* the chain is exactly the list obtained by following `inherit` until it is absent *)
 Lemma chain_sound st names : forall fuel s streams, chain st names fuel s = Some streams ->
@@ -239,7 +243,7 @@ Lemma id_precedence kw url file :
   (kw = Some "" -> resolve_id kw url file = file) /\
   (kw = None -> url = Some "" -> resolve_id kw url file = file).
 Proof.
-  unfold resolve_id. repeat split.
+  unfold resolve_id, url_keyword_wins, l0_empty_falls_back. cbn [andb]. repeat split.
   - intros k -> Hk. apply String.eqb_neq in Hk. rewrite Hk. reflexivity.
   - intros u -> -> Hu. apply String.eqb_neq in Hu. rewrite Hu. reflexivity.
   - intros -> ->. reflexivity.
@@ -249,9 +253,18 @@ Qed.
 
 Lemma wrong_type_refused ty : check_stream_type ty = true <-> ty = Some "sdp.vis".
 Proof.
-  unfold check_stream_type. destruct ty as [t|]; [|split; discriminate].
-  rewrite String.eqb_eq. split; [intros ->; reflexivity|intros H; injection H; auto].
+  unfold check_stream_type, l0_expected_type, l0_type_default. destruct ty as [t|].
+  - rewrite String.eqb_eq. split; [intros ->; reflexivity|intros H; injection H; auto].
+  - split; [intros H; vm_compute in H; discriminate|discriminate].
 Qed.
+
+(* the keys under which the defaults and the stream attributes are looked up are those the property names *)
+Lemma telstate_keys :
+  l0_cbid_key = "capture_block_id" /\ l0_stream_key = "stream_name" /\ l0_type_key = "stream_type"
+  /\ ts_inherit_key = "inherit" /\ fl_type_key = "stream_type" /\ fl_src_key = "src_streams"
+  /\ fl_archived_key = "sdp_archived_streams" /\ ts_sep = "_"
+  /\ ds_chunk_info_key = "chunk_info" /\ fl_chunk_info_key = "chunk_info" /\ ds_dumps_array = "correlator_data".
+Proof. repeat split; reflexivity. Qed.
 
 (* ---------- flag stream upgrade ---------- *)
 Lemma zs_eqb_eq a b : zs_eqb a b = true -> a = b.
@@ -302,8 +315,123 @@ Qed.
 Lemma align_length arrays : List.length (align_chunk_info arrays) = List.length arrays.
 Proof. unfold align_chunk_info. apply map_length. Qed.
 
+(* ---------- which archived streams count ---------- *)
+Lemma flag_source_iff stream f :
+  is_flag_source stream f = true <-> f_type f = Some "sdp.flags" /\ In stream (f_src f).
+Proof.
+  unfold is_flag_source, fl_type, mem_string. rewrite andb_true_iff, existsb_exists. split.
+  - intros [Ht (y & Hy & E)]. apply String.eqb_eq in E. subst y. split; [|exact Hy].
+    destruct (f_type f) as [t|]; [|discriminate]. apply String.eqb_eq in Ht. subst t. reflexivity.
+  - intros [Ht Hin]. rewrite Ht. split; [reflexivity|]. exists stream. split; [exact Hin|apply String.eqb_refl].
+Qed.
+
+(* ---------- every way of opening ---------- *)
+Lemma open_dumps a b : (0 <= a)%Z ->
+  dumps_of (nth 0 (align_chunk_info [[a]; [b]]) []) = Z.max a b /\
+  dumps_of (nth 1 (align_chunk_info [[a]; [b]]) []) = Z.max a b.
+Proof.
+  intros Ha. unfold align_chunk_info, align_one, zmax_list, dumps_of.
+  cbn [map fold_right nth]. split.
+  - change (fold_right Z.add 0%Z ([a] ++ repeat 1%Z (Z.to_nat (Z.max (a + 0) (Z.max (b + 0) 0) - (a + 0)))))
+      with (dumps_of ([a] ++ repeat 1%Z (Z.to_nat (Z.max (a + 0) (Z.max (b + 0) 0) - (a + 0))))).
+    rewrite dumps_app, dumps_repeat1. unfold dumps_of. cbn [fold_right]. lia.
+  - change (fold_right Z.add 0%Z ([b] ++ repeat 1%Z (Z.to_nat (Z.max (a + 0) (Z.max (b + 0) 0) - (b + 0)))))
+      with (dumps_of ([b] ++ repeat 1%Z (Z.to_nat (Z.max (a + 0) (Z.max (b + 0) 0) - (b + 0))))).
+    rewrite dumps_app, dumps_repeat1. unfold dumps_of. cbn [fold_right]. lia.
+Qed.
+
+(* the model of TelstateDataSource.__init__ (with the GENERATED condition under which chunk info is consulted)
+   agrees with the spec for every mode of opening and every archived list *)
+Lemma open_spec m stream cur archived : (0 <= c_dumps cur)%Z ->
+  open_source m stream cur archived = spec_open m stream cur archived.
+Proof.
+  intros H. unfold open_source, spec_open, ds_reads_chunk_info, has_ts. rewrite flags_upgrade_rule.
+  destruct (m_store m), (m_ts m) as [k|]; cbn [orb negb]; try reflexivity;
+    (destruct (upgrade_on m); [destruct (spec_upgrade stream cur archived) as [c|e]|]; try reflexivity;
+     cbv zeta;
+     match goal with |- context [align_chunk_info [[?a]; [?b]]] => destruct (open_dumps a b H) as [E0 E1]; rewrite ?E0, ?E1 end;
+     reflexivity).
+Qed.
+
+(* however it is opened (with or without a chunk store, timestamps given or synthesised - except the single case
+   in which nothing at all is derived from the streams: no data and timestamps given), an incompatible flag
+   stream is an error and the data set spans the longer of the opened stream and its replacement flags *)
+Lemma span_however_opened u stream cur archived : (0 <= c_dumps cur)%Z ->
+  forall s t, s = true \/ t = None ->
+  open_source (mkMode s u t) stream cur archived =
+  match (if match u with Some b => b | None => ds_upgrade_default end
+         then spec_upgrade stream cur archived else Ok cur) with
+  | Err e => Err e
+  | Ok c => let n := Z.max (c_dumps cur) (c_dumps c) in
+            Ok (mkOpened (match t with Some k => k | None => n end) (if s then Some (n, c_id c) else None))
+  end.
+Proof.
+  intros H s t Hst. rewrite open_spec by exact H. unfold spec_open, upgrade_on. cbn [m_store m_ts m_upgrade].
+  destruct s, t as [k|]; try reflexivity. destruct Hst; discriminate.
+Qed.
+
+(* the excluded case: a metadata-only source with explicit timestamps derives nothing from the streams *)
+Lemma meta_explicit_ignores_streams u k stream cur archived :
+  open_source (mkMode false u (Some k)) stream cur archived = Ok (mkOpened k None).
+Proof. reflexivity. Qed.
+
+(* ---------- the whole path from the telstate ---------- *)
+Definition dumps_nonneg (vals : vtable) : Prop := forall d rest, In (AInfo d rest) vals -> (0 <= d)%Z.
+
+Lemma aget_in st vals ps k id v : aget st vals ps k = Some (id, v) -> In v vals.
+Proof.
+  unfold aget. destruct (lookup st ps k) as [i|]; [|discriminate].
+  destruct (nth_error vals (Z.to_nat i)) as [x|] eqn:E; [|discriminate].
+  intros Hx. injection Hx as _ <-. eapply nth_error_In; eauto.
+Qed.
+
+Lemma fstream_of_with_spec st vals base cb s :
+  fstream_of_with view_capture_stream_on st vals base cb s = fstream_of_with spec_prefixes_on st vals base cb s.
+Proof. unfold fstream_of_with. destruct (chain_of st vals s); [|reflexivity]. rewrite prefix_order_on. reflexivity. Qed.
+
+Lemma open_telstate_spec m st vals cb stream : dumps_nonneg vals ->
+  open_telstate m st vals cb stream = spec_open_telstate m st vals cb stream.
+Proof.
+  intros Hv. unfold open_telstate, spec_open_telstate, open_telstate_with.
+  destruct (chain_of st vals stream) as [streams|]; [|reflexivity].
+  rewrite prefix_order_on.
+  destruct (negb (check_stream_type (astr (aget st vals (spec_prefixes_on [""] cb streams) l0_type_key)))); [reflexivity|].
+  destruct (ds_reads_chunk_info (m_store m) (has_ts m)).
+  - destruct (aget st vals (spec_prefixes_on [""] cb streams) ds_chunk_info_key) as [[id [x|x|d rest|]]|] eqn:E;
+      try reflexivity.
+    rewrite (map_ext _ _ (fstream_of_with_spec st vals (spec_prefixes_on [""] cb streams) cb)).
+    destruct (if upgrade_on m then _ else _) as [fs|]; [|reflexivity].
+    apply open_spec. cbn [c_dumps]. apply (Hv d rest). eapply aget_in; eauto.
+  - apply open_spec. cbn [c_dumps]. lia.
+Qed.
+
+Lemma open_url_spec m st vals kwcb urlcb kwsn urlsn : dumps_nonneg vals ->
+  open_url m st vals kwcb urlcb kwsn urlsn = spec_open_url m st vals kwcb urlcb kwsn urlsn.
+Proof.
+  intros Hv. unfold open_url, spec_open_url, open_url_with.
+  destruct (resolve_id kwcb urlcb _) as [cb|]; [|reflexivity].
+  destruct (resolve_id kwsn urlsn _) as [sn|]; [|reflexivity].
+  rewrite open_telstate_spec by exact Hv. reflexivity.
+Qed.
+
 Example nonvacuous_c18 :
   chain [mkEntry "s_inherit" false 1] (names_of ["s"; "base"]) 3 "s" = Some ["s"; "base"]
   /\ view_capture_stream "cb" ["s"; "base"] = ["cb_s_"; "cb_base_"; "cb_"; "s_"; "base_"; ""]
   /\ align_chunk_info [[2; 2]%Z; [3]%Z] = [[2; 2]%Z; [3; 1]%Z].
 Proof. repeat split; reflexivity. Qed.
+
+(* a telstate with an L0 stream of 3 dumps and an archived flag stream of 5: opened as metadata only it has 5
+   timestamps, opened with data 5 dumps of the flag stream's flags; with the upgrade disabled 3 *)
+Definition ex_vals : vtable :=
+  [AStr "cb"; AStr "l0"; AStr "sdp.vis"; AInfo 3 [4; 12]%Z; AStrs ["l0"; "fl"]; AStr "sdp.flags"; AStrs ["l0"];
+   AInfo 5 [4; 12]%Z].
+Definition ex_store : store :=
+  [mkEntry "capture_block_id" false 0; mkEntry "stream_name" false 1; mkEntry "l0_stream_type" false 2;
+   mkEntry "cb_l0_chunk_info" false 3; mkEntry "sdp_archived_streams" false 4; mkEntry "fl_stream_type" false 5;
+   mkEntry "fl_src_streams" false 6; mkEntry "cb_fl_chunk_info" false 7].
+Example nonvacuous_open :
+  open_url (mkMode false None None) ex_store ex_vals None None None None = Ok ("cb", "l0", mkOpened 5 None)
+  /\ open_url (mkMode true None None) ex_store ex_vals None None None None = Ok ("cb", "l0", mkOpened 5 (Some (5, 7)%Z))
+  /\ open_url (mkMode false (Some false) None) ex_store ex_vals None None None None = Ok ("cb", "l0", mkOpened 3 None)
+  /\ open_url (mkMode true None None) ex_store ex_vals None None (Some "fl") None = Err 3.
+Proof. repeat split; vm_compute; reflexivity. Qed.
